@@ -1594,6 +1594,10 @@ where
         if !self.is_define_component_call(call) {
             return;
         }
+        // the options are the argument after the component: without one there is nothing to name
+        if call.args.is_empty() {
+            return;
+        }
 
         inject_define_component_option(
             call,
